@@ -1,12 +1,12 @@
 \* exhaustive (quick tier), assembly automaton: all codecs, inputs inside and outside the premise
-\* (non-key first frame, lost first packet, padding packets), streams of <= 2 frames, one MTU
+\* (non-key first frame, lost first packet; padding packets in the thorough tier), streams of <= 2 frames, one MTU
 CONSTANTS
   Codecs <- AllCodecs
   Mtus = {12}
   MaxFrames = 2
   Sizes = {1}
   RelSizes = TRUE
-  MaxRandSize = 0
+  MaxRandPk = 0
   Rates <- RatesOne
   Starts <- StartsOne
   Deltas = {3000}
@@ -16,7 +16,7 @@ CONSTANTS
   Dims <- DimsOne
   Lossy = TRUE
   NonKeyStart = TRUE
-  Pads = TRUE
+  Pads = FALSE
   Sample = FALSE
   Emit = FALSE
   InitSample = 0
